@@ -558,6 +558,17 @@ func (planH) Execute(c *Case, res *Result) {
 						res.Probes["strategy_consulted_with_other_count_or_limit"]++
 					}
 					call.Need, call.Limit = op.Count, op.Limit
+					if strings.Join(refNames, ",") != strings.Join(gotNames, ",") {
+						// candidates withheld from (or invented for) the strategy function between the
+						// merge and the plan: the plan still has to answer the request over the nodes
+						// every plugin offers, so it is judged over the reference candidates
+						res.Probes["plan_judged_over_reference_candidates"]++
+						call.Infos = nil
+						for _, n := range refNames {
+							r := ref[n]
+							call.Infos = append(call.Infos, strategy.Info{Nodename: n, Usage: r.usage, Rate: r.rate, Capacity: r.cap, Count: counts[n]})
+						}
+					}
 					checkPlan(call, msg, err, viol, res)
 				}
 			}
